@@ -425,7 +425,10 @@ pub fn run_unify(ev: &EvidenceSet, sched: &Sched, opts: &UnifyOpts) -> UnifyOutc
                 .collect::<Vec<_>>()
                 .join(",")
         });
-        let n_after = state.tyvar_count();
+        let known = state.tyvar_count();
+        // (a state that has lost count of its variables must not take the
+        // harness down: every harness variable is looked up all the same)
+        let n_after = known.max(vars.len());
         let mut class = Vec::with_capacity(n_after);
         let mut data = Vec::with_capacity(n_after);
         let var_index: Vec<usize> = vars.iter().map(|v| v.index()).collect();
